@@ -3,7 +3,7 @@ from . import common
 from .common import wint
 from .x_arith import mk, fmt_of, modes_of
 
-ROUTES = ['resize', 'resize-dtype', 'like=', 'like()', 'ctor', 'ctor-dtype', 'call', 'set_val', 'equal', 'setitem-elem', 'setitem-slice']
+ROUTES = ['resize', 'resize-dtype', 'resize-view', 'like=', 'like()', 'ctor', 'ctor-dtype', 'call', 'set_val', 'equal', 'setitem-elem', 'setitem-slice']
 
 
 def dtype_str(t):
@@ -43,7 +43,19 @@ def observe_conv(fx, np, props, ts, td, codes, route, smodes, dmodes, shape=None
     try:
         scalar = isinstance(codes, int)
         clist = [codes] if scalar else list(codes)
-        if route in ('resize', 'resize-dtype'):
+        if route == 'resize-view':
+            # history: the converted object is a VIEW (slice) of a parent; converting it must leave the parent (the source
+            # of its values) unchanged
+            if scalar:
+                return None
+            parent = mk(fx, np, ts, clist, None, rounding=smodes[0], overflow=smodes[1])
+            src = parent[0:len(clist)]
+            src.config.rounding, src.config.overflow = dmodes
+            src.resize(bool(td[0]), td[1], td[2])
+            dst = src
+            src_after = common.codes_of(parent)
+            sshape = [len(clist)]
+        elif route in ('resize', 'resize-dtype'):
             # the object converts itself: its own modes govern
             src = mk(fx, np, ts, codes, shape, rounding=dmodes[0], overflow=dmodes[1])
             keep = mk(fx, np, ts, codes, shape)
